@@ -149,7 +149,7 @@ func genResize(cfg *hx.Config, s *hx.Stream) {
 		}
 	}
 	// random, moderate sizes
-	n = 1500
+	n = 1000
 	if cfg.Thorough() {
 		n = 40000
 	}
@@ -298,7 +298,7 @@ func genPixels(cfg *hx.Config, s *hx.Stream, direct *[]hx.DirectViolation) map[s
 	const rows, cols = 16, 40
 	vx, _ := newVaxis(rows, cols)
 	defer closeVaxis(vx)
-	n := 700
+	n := 500
 	if cfg.Thorough() {
 		n = 12000
 	}
@@ -573,7 +573,10 @@ func genPlacement(cfg *hx.Config, s *hx.Stream, direct *[]hx.DirectViolation, si
 		}
 		imgs := make([]*im, nimg)
 		for i := range imgs {
-			src := image.NewRGBA(image.Rect(0, 0, 8+cfg.Rand.Intn(60), 8+cfg.Rand.Intn(60)))
+			// 8..64 pixels a side: at most 8 x 4 cells of 8 x 16, so no Resize into a box of
+			// at least one cell truncates a side to 0 (an empty image has an empty sixel
+			// encoding, which Sixel.Draw skips, and no PNG encoding at all)
+			src := image.NewRGBA(image.Rect(0, 0, 8+cfg.Rand.Intn(57), 8+cfg.Rand.Intn(57)))
 			for j := 0; j < len(src.Pix); j += 4 {
 				src.Pix[j], src.Pix[j+1], src.Pix[j+2], src.Pix[j+3] = uint8(j), uint8(j>>4), uint8(i*90), 255
 			}
@@ -594,9 +597,9 @@ func genPlacement(cfg *hx.Config, s *hx.Stream, direct *[]hx.DirectViolation, si
 		var frames []string
 		var framesJ []interface{}
 		tags := map[string]bool{}
-		addOp := func(code, id, col, row, w, h int) {
-			ops = append(ops, hx.Tuple(z(code), z(id), z(col), z(row), z(w), z(h)))
-			opsJ = append(opsJ, []int{code, id, col, row, w, h})
+		addOp := func(code, id, col, row, w, h, ww, wh int) {
+			ops = append(ops, hx.Tuple(z(code), z(id), z(col), z(row), z(w), z(h), z(ww), z(wh)))
+			opsJ = append(opsJ, []int{code, id, col, row, w, h, ww, wh})
 		}
 		clearEvery := cfg.Rand.Intn(6) != 0 // most applications clear every frame
 		nframes := 3 + cfg.Rand.Intn(8)
@@ -609,7 +612,7 @@ func genPlacement(cfg *hx.Config, s *hx.Stream, direct *[]hx.DirectViolation, si
 			cleared := clearEvery || cfg.Rand.Intn(3) == 0
 			if cleared {
 				root.Clear()
-				addOp(0, 0, 0, 0, 0, 0)
+				addOp(0, 0, 0, 0, 0, 0, 0, 0)
 			} else {
 				tags["no-clear"] = true
 			}
@@ -636,13 +639,26 @@ func genPlacement(cfg *hx.Config, s *hx.Stream, direct *[]hx.DirectViolation, si
 					tags["drop"] = true
 					continue
 				}
-				win := root.New(m.col, m.row, 10, 5)
-				if cfg.Rand.Intn(3) == 0 {
-					win = root.New(m.col/2, m.row/2, -1, -1).New(m.col-m.col/2, m.row-m.row/2, 10, 5)
-				}
-				m.k.Draw(win)
+				// the window: usually roomy, sometimes exactly the image, sometimes too small
 				w, h := m.k.CellSize()
-				addOp(1, int(m.k.VerifID()), m.col, m.row, w, h)
+				ww, wh := 10, 5
+				switch cfg.Rand.Intn(8) {
+				case 0:
+					ww, wh = w, h
+				case 1:
+					ww, wh = cfg.Rand.Intn(w+1), 1+cfg.Rand.Intn(5)
+					tags["small-window"] = true
+				case 2:
+					ww, wh = 1+cfg.Rand.Intn(10), cfg.Rand.Intn(h+1)
+					tags["small-window"] = true
+				}
+				win := root.New(m.col, m.row, ww, wh)
+				if cfg.Rand.Intn(3) == 0 {
+					win = root.New(m.col/2, m.row/2, -1, -1).New(m.col-m.col/2, m.row-m.row/2, ww, wh)
+				}
+				ww, wh = win.Size()
+				m.k.Draw(win)
+				addOp(1, int(m.k.VerifID()), m.col, m.row, w, h, ww, wh)
 			}
 			snap := vx.VerifGraphicsNext()
 			if sixel && cleared {
@@ -671,13 +687,14 @@ func genPlacement(cfg *hx.Config, s *hx.Stream, direct *[]hx.DirectViolation, si
 			refresh := cfg.Rand.Intn(7) == 0
 			if refresh {
 				vx.Refresh()
-				addOp(3, 0, 0, 0, 0, 0)
+				addOp(3, 0, 0, 0, 0, 0, 0, 0)
 				tags["refresh"] = true
 			} else {
 				vx.Render()
-				addOp(2, 0, 0, 0, 0, 0)
+				addOp(2, 0, 0, 0, 0, 0, 0, 0)
 			}
-			evs, uploads := events(fc.Take())
+			raw := fc.Take()
+			evs, uploads := events(raw)
 			// image data: sent once after each Resize, with the first placement write
 			// (KittyImage.Resize appends to the upload buffer, so two Resizes without a
 			// placement write in between upload twice in one frame: counted once here)
@@ -704,7 +721,7 @@ func genPlacement(cfg *hx.Config, s *hx.Stream, direct *[]hx.DirectViolation, si
 			}
 			for _, e := range evs {
 				es = append(es, hx.Tuple(z(e[0]), z(e[1]), z(e[2]), z(e[3])))
-				ej = append(ej, e[:])
+				ej = append(ej, []int{e[0], e[1], e[2], e[3]})
 			}
 			rf := 0
 			if refresh {
@@ -741,7 +758,7 @@ func fracOf(f float64) (string, string) {
 }
 
 func genFloat(cfg *hx.Config, s *hx.Stream) {
-	n := 1500
+	n := 1000
 	if cfg.Thorough() {
 		n = 60000
 	}
